@@ -52,7 +52,7 @@ func (h *HttpServer) handleStreamInit(w http.ResponseWriter, r *http.Request) {
 		return
 	}
 
-	req, err := ReadRequest(bytes.NewReader(body))
+	req, err := readRequestBytes(body)
 	if err != nil {
 		h.writeHttpError(w, http.StatusBadRequest, err, nil)
 		return
@@ -399,6 +399,10 @@ func (h *HttpServer) handleStreamExchange(w http.ResponseWriter, r *http.Request
 	}
 
 	// Read the input batch and extract state token from custom metadata
+	if _, err := checkIPCStreamFraming(body); err != nil {
+		h.writeHttpError(w, http.StatusBadRequest, err, nil)
+		return
+	}
 	inputReader, err := ipc.NewReader(bytes.NewReader(body))
 	if err != nil {
 		h.writeHttpError(w, http.StatusBadRequest, err, nil)
